@@ -123,20 +123,12 @@ class Limit:
         slot_datetime = self.interval_start + timedelta(seconds=index * self.slot_duration)
 
         if self.period == 60 * 60 * 24 * 7:  # Weekly
-            # Use ISO week number for proper Monday-Sunday week boundaries
-            # isocalendar() returns (year, week_number, weekday)
-            iso_year, iso_week, _ = slot_datetime.isocalendar()
-            start_year, start_week, _ = self.interval_start.isocalendar()
-
-            # Calculate week offset from project start
-            # Account for year boundaries
-            if iso_year == start_year:
-                return iso_week - start_week
-            else:
-                # Handle year boundary - weeks from start year + weeks in new year
-                # ISO week 1 of new year follows week 52 or 53 of previous year
-                weeks_in_start_year = self.interval_start.replace(month=12, day=28).isocalendar()[1]
-                return (weeks_in_start_year - start_week + 1) + (iso_week - 1) + 52 * (iso_year - start_year - 1)
+            # ISO weeks run Monday-Sunday: count the Mondays between the week of the interval
+            # start and the week of the slot. (Deriving the offset from ISO week numbers and
+            # '52 weeks per year' merged week 53 of a long ISO year with week 1 of the next.)
+            slot_monday = slot_datetime.date() - timedelta(days=slot_datetime.weekday())
+            start_monday = self.interval_start.date() - timedelta(days=self.interval_start.weekday())
+            return (slot_monday - start_monday).days // 7
 
         elif self.period == 60 * 60 * 24:  # Daily
             # Use calendar day boundaries
